@@ -44,8 +44,42 @@ def run_list(st, args, width=None):
     return p.returncode, out, err.decode("utf-8", "replace")
 
 
+class Rec:
+    """a store that remembers the commands that built it (the replay of a finding)"""
+    def __init__(self, ctx):
+        self.st = cmdrun.Store(ctx.ergo, ctx.go); self.cmds = []
+    def exec(self, argv, stdin=None, **kw):
+        r = self.st.exec(argv, stdin, **kw)
+        if argv[:1] != ["list"] and argv[1:2] != ["list"]:
+            self.cmds.append({"argv": argv, "stdin": None if stdin is None else stdin.decode("utf-8", "replace"), "exit": r["exit"]})
+        return r
+    def __getattr__(self, k):
+        return getattr(self.st, k)
+
+
+def profile_store(ctx):
+    """one epic per profile: every child finished except one child in state s (s = todo, doing, blocked, error), an epic with only finished
+    children, an empty epic; the default view must show each unfinished task once, under its epic"""
+    st = Rec(ctx)
+    def new(kind, d):
+        return json.loads(st.exec(["--json", "new", kind], json.dumps(d).encode())["stdout"])["id"]
+    for s in ("todo", "doing", "blocked", "error", None):
+        e = new("epic", {"title": "epic-%s" % s})
+        kids = [new("task", {"title": "k%d-%s" % (i, s), "epic": e}) for i in range(3)]
+        st.exec(["--json", "set", kids[0]], b'{"state":"done"}')
+        st.exec(["--json", "set", kids[1]], b'{"state":"canceled"}')
+        if s in ("doing", "error"):
+            st.exec(["--json", "--agent", "ag", "claim", kids[2]])
+        if s in ("blocked", "error"):
+            st.exec(["--json", "--agent", "ag", "set", kids[2]], json.dumps({"state": s}).encode())
+        if s is None:
+            st.exec(["--json", "set", kids[2]], b'{"state":"done"}')
+    new("epic", {"title": "empty epic"})
+    return st
+
+
 def build_store(ctx, r):
-    st = cmdrun.Store(ctx.ergo, ctx.go)
+    st = Rec(ctx)
     epics, tasks = [], []
     for i in range(r.n(4)):
         epics.append(json.loads(st.exec(["--json", "new", "epic"], json.dumps({"title": r.pick(TITLES)}).encode())["stdout"])["id"])
@@ -181,11 +215,11 @@ def run(ctx):
     special_cases(ctx)
     r = gen.Rng(ctx.seed * 1000003 + 19)
     widths = [None, 14, 16, 20, 40, 80, 132, 240]
-    for h in range(6 if ctx.quick else 80):
-        st = build_store(ctx, r.fork())
+    for h in range(7 if ctx.quick else 80):
+        st = profile_store(ctx) if h == 0 else build_store(ctx, r.fork())
         try:
             g = st.graph()["graph"]
-            trace = [{"store": "generated (%d items)" % len(g["tasks"])}]
+            trace = list(st.cmds)
             stop = False
             for args in ([], ["--all"], ["--ready"], ["--epics"]):
                 for w in (widths if not ctx.quick else [None, r.pick([14, 15, 16, 17, 20, 24]), r.pick([40, 60, 80]), r.pick([100, 132, 240])]):
